@@ -180,6 +180,34 @@ CORE_ENUMS = {
 }
 
 
+import struct as _struct
+import math as _math
+
+
+def is_float(v):
+    return isinstance(v, AggV) and v.kind == "float" and isinstance(v.fields.get(0), K) and isinstance(v.fields.get(1), K)
+
+
+def float_of(v):
+    """python float of an abstract float constant (bit pattern + width)"""
+    bits, w = v.fields[0].v, int(v.fields[1].v)
+    if w == 32:
+        return _struct.unpack("<f", _struct.pack("<I", bits & 0xFFFFFFFF))[0]
+    return _struct.unpack("<d", _struct.pack("<Q", bits & 0xFFFFFFFFFFFFFFFF))[0]
+
+
+def mk_float(x, width):
+    """abstract float constant for python float x at the given width (rounded to nearest for 32 bits)"""
+    width = int(width)
+    if width == 32:
+        try:
+            b = _struct.unpack("<I", _struct.pack("<f", x))[0]
+        except OverflowError:
+            b = 0x7F800000 if x > 0 else 0xFF800000
+        return AggV("float", {0: K(b), 1: K(32)})
+    return AggV("float", {0: K(_struct.unpack("<Q", _struct.pack("<d", x))[0]), 1: K(64)})
+
+
 def mk_option(v=None):
     if v is None:
         return EnumV("core::option::Option", "None", 0)
@@ -591,7 +619,7 @@ class Engine:
             u_ = fr.mir.unit if fr.mir is not None else self.unit
             rn = c.get("resolved") or c.get("path") or ""
             body = self.find_body(u_.qualify(strip_generics(rn), c.get("resolved_krate") or c.get("krate"))) or self.find_body(strip_generics(rn))
-            if body is None and not args and strip_generics(rn).endswith("::new"):
+            if (body is None or (getattr(self, "opaque_generic_ctors", False) and c.get("gargs"))) and not args and strip_generics(rn).endswith("::new"):
                 # a unit-like constructor of another crate (a command handler type): an opaque value naming its type
                 store(self.place_loc(st, fr, t["dest"], for_write=True), AggV("new:%s<%s>" % (strip_generics(c.get("impl_self") or rn), ",".join(str(g) for g in (c.get("gargs") or ()))), {}))
                 return True
@@ -642,6 +670,25 @@ class Engine:
     def binop(self, st, op, a, b, ty):
         a = self.resolve(st, a)
         b = self.resolve(st, b)
+        if is_float(a) and is_float(b):
+            x, y, w = float_of(a), float_of(b), max(int(a.fields[1].v), int(b.fields[1].v))
+            if op in ("Eq", "Ne", "Lt", "Le", "Gt", "Ge"):
+                return K({"Eq": x == y, "Ne": x != y, "Lt": x < y, "Le": x <= y, "Gt": x > y, "Ge": x >= y}[op])
+            try:
+                if op == "Add":
+                    return mk_float(x + y, w)
+                if op == "Sub":
+                    return mk_float(x - y, w)
+                if op == "Mul":
+                    return mk_float(x * y, w)
+                if op == "Div":
+                    if y == 0:
+                        return mk_float(_math.nan if (x == 0 or x != x) else _math.copysign(_math.inf, x) * _math.copysign(1.0, y), w)
+                    return mk_float(x / y, w)
+                if op == "Rem" and y != 0 and not _math.isinf(x):
+                    return mk_float(_math.fmod(x, y), w)
+            except (OverflowError, ValueError):
+                pass
         if isinstance(a, K) and isinstance(b, K):
             x, y = a.v, b.v
             try:
@@ -757,6 +804,26 @@ class Engine:
                     return K(x)
                 if isinstance(v, DiscrV):
                     return v
+            if rv["kind"] == "IntToFloat":
+                vv = self.resolve(st, v)
+                if isinstance(vv, K) and isinstance(vv.v, int) and rv.get("ty") in ("f32", "f64"):
+                    return mk_float(float(int(vv.v)), 32 if rv["ty"] == "f32" else 64)
+            if rv["kind"] == "FloatToInt":
+                vv = self.resolve(st, v)
+                rng = _INT_RANGE.get(rv.get("ty") or "")
+                if is_float(vv) and rng is not None:
+                    x = float_of(vv)
+                    if x != x:
+                        return K(0)                    # NaN
+                    if x >= rng[1]:
+                        return K(rng[1])               # saturating
+                    if x <= rng[0]:
+                        return K(rng[0])
+                    return K(int(x))                   # truncation towards zero
+            if rv["kind"] == "FloatToFloat":
+                vv = self.resolve(st, v)
+                if is_float(vv) and rv.get("ty") in ("f32", "f64"):
+                    return mk_float(float_of(vv), 32 if rv["ty"] == "f32" else 64)
             return st.fresh(("cast", rv["kind"], rv["ty"], snapshot(v)))
         if k == "binop":
             return self.binop(st, rv["op"], self.operand(st, fr, rv["a"]), self.operand(st, fr, rv["b"]), rv.get("ty"))
@@ -769,6 +836,8 @@ class Engine:
                 return K(rng[1] - a.v) if rng is not None and rng[0] == 0 else K(~a.v)
             if rv["op"] == "Neg" and isinstance(a, K):
                 return K(-a.v)
+            if rv["op"] == "Neg" and is_float(a):
+                return mk_float(-float_of(a), a.fields[1].v)
             if rv["op"] == "Not" and isinstance(a, SymV):
                 return st.fresh(("unop", "Not", snapshot(a)))
             if rv["op"] == "PtrMetadata":
@@ -1078,12 +1147,15 @@ class Engine:
         red = self.redirect.get(rname) or self.redirect.get(name)
         if callable(red):
             red = red(self, st, t, name, args)   # -> a Body, a path or None
+        red_gargs = None
+        if isinstance(red, tuple):
+            red, red_gargs = red        # (body, generic arguments of that body as instantiated at this call)
         if red is not None and len(st.frames) < self.max_depth:
             body = red if not isinstance(red, str) else self.find_body(red)
             if body is not None:
                 st.trace.append(Event("enter", red, red, tuple(snapshot(a) for a in args), fr.bi, line, len(st.frames), fr.body.npath if fr.body else "?"))
                 nf = self.push_frame(st, body, args, dest, target)
-                nf.gargs = self.concrete_gargs(st, c, resolved=True)
+                nf.gargs = tuple(red_gargs) if red_gargs is not None else self.concrete_gargs(st, c, resolved=True)
                 return [st]
         # 1. closures called through Fn* traits
         if name.endswith(("FnOnce::call_once", "FnMut::call_mut", "Fn::call")) and args:
@@ -1249,7 +1321,9 @@ class Engine:
                         return [(st, EnumV(parent, last, ds[0], {i: a for i, a in enumerate(cargs)}))]
                 st.trace.append(Event("call", f.path, f.path, tuple(snapshot(a) for a in cargs), fr.bi, "?", len(st.frames), fr.body.npath if fr.body else "?"))
                 return [(st, st.fresh(("ret", f.path)))]
-            self.push_frame(st, body, list(cargs), Loc(tmp), -1)
+            nf_ = self.push_frame(st, body, list(cargs), Loc(tmp), -1)
+            if f.gargs:
+                nf_.gargs = tuple(f.gargs)      # a model that knows the instantiation hands it over with the function value
         else:
             return [(st, st.fresh(("ret-unknown-fn",)))]
         # run nested frames until the stack is back at `base`
@@ -1425,7 +1499,8 @@ def _norm_ty(s):
     for pre in ("scpi::", "scpi_contrib::", "crate::"):
         s = s.replace(pre, "")
     import re
-    return re.sub(r"<'[a-z_]+>", "", re.sub(r"'[a-z_]+,", "", s))
+    s = re.sub(r"<'[a-z_]+>", "", re.sub(r"'[a-z_]+,", "", s))
+    return re.sub(r"&'[a-z_]+(mut)?", lambda m_: "&" + (m_.group(1) or ""), s)
 
 
 def conversion_redirect(eng, st, t, name, args):
@@ -1449,7 +1524,31 @@ def conversion_redirect(eng, st, t, name, args):
     src, dst = (g[0], g[1]) if meth in ("try_into", "into") else (g[1], g[0])
     want = "try_from" if meth.startswith("try_") else "from"
     hits = [b for nm, d, s_, b in idx if nm == want and d == dst and (s_ == src or _ty_head(s_) == _ty_head(src) and "<" in s_)]
-    return hits[0] if len(hits) == 1 else None
+    if len(hits) == 1:
+        return hits[0]
+    if not hits:
+        # the source type named through a re-export (`scpi::parser::tokenizer::Token` for `...::token::Token`)
+        hits = [b for nm, d, s_, b in idx if nm == want and d == dst and _ty_head(s_).split("::")[-1] == _ty_head(src).split("::")[-1]]
+        if len(hits) == 1:
+            return hits[0]
+        hits = []
+    if not hits:
+        # a generic impl (`impl<T> TryFrom<Token> for Wrapper<T>`): same head (by last path segment, the type may be named
+        # through a re-export), its single type parameter unified with the argument at the call
+        def last(x):
+            return _ty_head(x).split("::")[-1]
+        m_dst = re.match(r"^([^<]+)<(.*)>$", dst)
+        cand = []
+        for nm, d, s_, b in idx:
+            m_d = re.match(r"^([^<]+)<([A-Z][A-Za-z0-9]*)>$", d)
+            if nm == want and m_d and m_dst and last(m_d.group(1)) == last(m_dst.group(1)) and (_ty_head(s_).split("::")[-1] == _ty_head(src).split("::")[-1]):
+                names = b.j.get("generics") or []
+                tp = [n_ for n_ in names if not n_.startswith("'")]
+                if tp == [m_d.group(2)]:
+                    cand.append((b, tuple(m_dst.group(2) if n_ == m_d.group(2) else n_ for n_ in names)))
+        if len(cand) == 1:
+            return cand[0]
+    return None
 
 
 def m_from_residual(eng, st, fr, t, name, rname, args):
